@@ -30,7 +30,10 @@ POSITIONS = ["from", "join", "in", "not-in", "negated-in", "comparison", "select
 FEATURES = ["where-alias", "where-complex", "groupby-alias", "groupby-selected-alias", "having-alias", "orderby-alias", "orderby-selected-alias",
             "join-on-alias", "select-alias", "select-expr-alias", "nested-in", "nested-from", "limit", "distinct", "case-alias", "function-alias-arg",
             "setop", "value-alias", "between-alias", "star", "where-criterion-alias", "having-criterion-alias", "orderby-expr-alias",
-            "groupby-expr-alias", "on-criterion-alias"]
+            "groupby-expr-alias", "on-criterion-alias",
+            # clauses and terms beyond aliases: whatever the inner query consists of belongs inside its brackets, unchanged
+            "for-update", "for-update-of-nowait", "having-subquery", "orderby-subquery", "select-subquery", "where-subquery-comparison",
+            "inner-cte", "join-using", "force-index", "prewhere", "rollup", "setop-orderby", "setop-limit", "groupby-subquery"]
 
 
 def R():
@@ -101,7 +104,38 @@ def build_inner(Q, feats, depth=0):
         q = q.select(e).orderby(e)
     if "limit" in feats:
         q = q.limit(3).offset(1)
-    if "setop" in feats:
+    sq = lambda col: Q.from_(T("tsub%d" % depth)).select(fn("Max")(T("tsub%d" % depth).field(col)))  # noqa: E731
+    if "having-subquery" in feats:
+        q = q.groupby(t.id).having(fn("Count")(t.id) > sq("h"))
+    if "groupby-subquery" in feats:
+        q = q.groupby(sq("g"))
+    if "orderby-subquery" in feats:
+        q = q.orderby(sq("o"))
+    if "select-subquery" in feats:
+        q = q.select(sq("s"))
+    if "where-subquery-comparison" in feats:
+        q = q.where(t.a >= sq("w"))
+    if "inner-cte" in feats:
+        q = q.with_(Q.from_(T("tcte%d" % depth)).select("id").where(T("tcte%d" % depth).z == 4), "ic%d" % depth)
+    if "join-using" in feats:
+        q = q.join(T("tu%d" % depth)).using("id")
+    if "force-index" in feats:
+        q = q.force_index("ix1")
+    if "prewhere" in feats:
+        q = q.prewhere(t.p == 1)
+    if "rollup" in feats:
+        q = q.rollup(t.id)
+    if "for-update" in feats:
+        q = q.for_update()
+    if "for-update-of-nowait" in feats:
+        q = q.for_update(nowait=True, of=("ti%d" % depth,))
+    if "setop-orderby" in feats or "setop-limit" in feats:
+        q = q.union(Q.from_(t).select(*([t.id] * max(1, len(q._selects)))))
+        if "setop-orderby" in feats:
+            q = q.orderby(t.id)
+        if "setop-limit" in feats:
+            q = q.limit(4)
+    if "setop" in feats and not isinstance(q, r["_SetOperation"]):
         q = q.union(Q.from_(t).select(*([t.id] * max(1, len(q._selects)))).where(t.id.as_("swa") < 9))
     return q
 
